@@ -108,8 +108,8 @@ rate_limit_enabled = false
 
 [logging]
 log_dir = "{r}/logs"
-stdout_level = "error"
-file_level = "error"
+stdout_level = "off"
+file_level = "{flevel}"
 
 [query]
 zone_index_cache_max_entries = 256
@@ -132,6 +132,7 @@ use_calendar_bucketing = true
             bypass = self.bypass_auth,
             tz = self.timezone,
             ws = self.week_start,
+            flevel = if std::env::var("SNEL_TRACE").is_ok() { "debug" } else { "error" },
         );
         let p = root.join("cfg.toml");
         std::fs::write(&p, text).unwrap();
@@ -165,6 +166,9 @@ async fn child_main() {
     use std::sync::Arc;
     use tokio::sync::RwLock;
 
+    if std::env::var("SNEL_TRACE").is_ok() {
+        let _ = snel_db::logging::init();
+    }
     let registry = Arc::new(RwLock::new(SchemaRegistry::new().expect("schema registry")));
     let sm = Arc::new(
         ShardManager::new(
@@ -227,6 +231,10 @@ async fn child_main() {
                 }
                 "release" => {
                     snel_db::verif::release(name);
+                    json!({"ok": true})
+                }
+                "pass_one" => {
+                    snel_db::verif::pass_one(name);
                     json!({"ok": true})
                 }
                 "release_all" => {
@@ -431,6 +439,8 @@ impl Session {
         Self::start_env(root, cfg, &[])
     }
     pub fn start_env(root: &Path, cfg: &SysCfg, env: &[(&str, String)]) -> Session {
+        std::fs::create_dir_all(root).unwrap();
+        let root = &root.canonicalize().unwrap();
         let cfg_path = cfg.write(root);
         let exe = std::env::current_exe().unwrap();
         let errlog = std::fs::OpenOptions::new().create(true).append(true).open(root.join("child.stderr")).unwrap();
